@@ -3,16 +3,15 @@
 # Applies one mutation to a scratch copy of /repo, checks that the pinned
 # baseline packages still build/pass, runs the check against the copy and
 # prints DETECTED / MISSED. The scratch copy is removed afterwards.
-ID=$1; DIFF=$2; TIER=${3:-quick}
+ID=$1; DIFF=$(readlink -f "$2"); TIER=${3:-quick}
 NAME=$(basename "$DIFF" .diff)
 D=/tmp/mut-$NAME-$$
 rm -rf "$D"; git clone -q /repo "$D" || exit 3
-cp /repo/pkg/*/verif_*.go "$D"/ 2>/dev/null
 # Uncommitted hook files of /repo are needed by some harnesses.
 (cd /repo && git ls-files --others --exclude-standard | while read f; do mkdir -p "$D/$(dirname $f)"; cp "$f" "$D/$f"; done)
 if ! git -C "$D" apply "$DIFF"; then echo "$NAME: APPLY-FAILED"; rm -rf "$D"; exit 3; fi
 TC=/root/go/pkg/mod/golang.org/toolchain@v0.0.1-go1.26.6.linux-amd64/bin/go
-if ! (cd "$D" && GOTOOLCHAIN=local GOSUMDB=off GOPROXY=off GOFLAGS=-mod=mod $TC build ./... >/dev/null 2>"$D/.build.err"); then echo "$NAME: DOES-NOT-COMPILE"; head -5 "$D/.build.err"; rm -rf "$D"; exit 3; fi
+if ! (cd "$D" && GOTOOLCHAIN=local GOSUMDB=off GOPROXY=off GOFLAGS=-mod=mod $TC build ./pkg/... ./cmd/bb_scheduler ./cmd/bb_worker ./cmd/bb_runner ./cmd/bb_noop_worker ./cmd/bb_virtual_tmp >/dev/null 2>"$D/.build.err"); then echo "$NAME: DOES-NOT-COMPILE"; head -5 "$D/.build.err"; rm -rf "$D"; exit 3; fi
 if ! (cd "$D" && GOTOOLCHAIN=local GOSUMDB=off GOPROXY=off GOFLAGS=-mod=mod $TC test -vet=off -count=1 ./pkg/filesystem/access/... ./pkg/scheduler/invocation/... ./pkg/scheduler/platform/... >/dev/null 2>&1); then echo "$NAME: BASELINE-TESTS-FAIL"; rm -rf "$D"; exit 3; fi
 cd /verif
 OUT=$(VERIF_REPO="$D" VERIF_WORK_SUFFIX="-mut-$NAME" ./check "$ID" "$TIER" 2>&1)
